@@ -651,7 +651,14 @@ func (g *gen) stepStake() {
 		if g.chance(30) {
 			from = g.clients[2]
 		}
-		g.do(from, "stake_pool_unlock", map[string]interface{}{"provider_type": 3, "provider_id": b.key.ID}, 0, opInfo{variant: "unlock", tblob: b.key.ID})
+		pid, variant := b.key.ID, "unlock"
+		if len(g.prev.ExtraPools) > 0 && g.chance(60) { // a stake pool node saved under a non-provider id: try to empty it
+			x := g.prev.ExtraPools[g.r.Intn(len(g.prev.ExtraPools))]
+			if k := g.w.Keys[x.ID]; k != nil {
+				from, pid, variant = k, x.ID, "unlock-extra"
+			}
+		}
+		g.do(from, "stake_pool_unlock", map[string]interface{}{"provider_type": 3, "provider_id": pid}, 0, opInfo{variant: variant, tblob: b.key.ID})
 	}
 }
 
